@@ -72,6 +72,8 @@ def main():
                 else:
                     os.environ.pop("JTIOSUE_QUBOVERT_VERIF_TRACE", None)
                 model = classes[c["kind"]](d) if c["kind"] != "dict" else dict(d)
+                for pk, pv in c.get("post", []):          # edits after construction (e.g. to leave a stale variable)
+                    model[tuple(L(x) for x in pk)] = pv
                 before = dict(model)
                 reported, maxindex = [], -1
                 if c["kind"] != "dict":
